@@ -164,9 +164,16 @@ fn handle(req: &Value, insts: &mut HashMap<String, vh::Config>) -> Value {
         resp.insert("in_parse_err".into(), err.map(Value::String).unwrap_or(Value::Null));
     }
 
+    // "real": the reader production code uses (the file system itself) instead of the virtual one
+    let real_reader = reader_spec.get("real").and_then(|r| r.as_bool()).unwrap_or(false);
     vh::start_recording();
     let result = catch_unwind(AssertUnwindSafe(|| {
-        vh::rewrite_js(code.clone(), &file, config, &reader).map(|out| {
+        let rewritten = if real_reader {
+            vh::rewrite_js(code.clone(), &file, config, &vh::DefaultFileReader {})
+        } else {
+            vh::rewrite_js(code.clone(), &file, config, &reader)
+        };
+        rewritten.map(|out| {
             let content = vh::print_js(&out.code, &out.source_map, &out.original_source_map, config).into_owned();
             let metrics = vh::get_metrics(out.transform_status, &file);
             (
